@@ -495,6 +495,9 @@ def c14_faults():
     # compound contracts exist in the file form only
     for mut in _mutations(GOOD_COMPOUND):
         cases.append({"op": "fault", "rep": "compound", "mut": list(mut), "route": "file"})
+    # an extra, unknown field in the data of an entry (a comment): no representation may answer with an unrelated exception
+    for rep in ("machine", "human", "compound"):
+        cases.append({"op": "fault", "rep": rep, "mut": ["replace", ["comment"], "an extra field"], "route": "file"})
     # file-entry level faults
     entry = {"type": "PolyhedralIoContract_machine", "name": "c", "data": GOOD_MACHINE}
     for mut in _mutations(entry):
